@@ -228,10 +228,10 @@ def safe_boundaries(lines):
             out.append(i)
     return out
 
-def run_parallel(binary, lines, jobs=1, **kw):
+def run_parallel(binary, lines, jobs=1, min_lines=2000, **kw):
     """run_resilient on `jobs` consecutive chunks of the request list (cut at case boundaries) in parallel processes;
     the chunking depends only on the request list, so the answers are reproducible"""
-    if jobs <= 1 or len(lines) < 2000:
+    if jobs <= 1 or len(lines) < min_lines:
         return run_resilient(binary, lines, **kw)
     bounds = safe_boundaries(lines)
     cuts, target = [0], len(lines) / float(jobs)
